@@ -19,6 +19,7 @@ import (
 	"log/slog"
 	"math"
 	"net/http"
+	"os"
 	"strconv"
 	"strings"
 	"testing"
@@ -255,9 +256,12 @@ func (w *runWorld) newServer(name string, parallel int, clean bool) *simServer {
 }
 
 // start runs the Server's own run loop as a task. The loop panics on a
-// processBatch error (by design: the runner process dies and is restarted by
-// its parent); that is recorded as the end of this server, not as a violation
-// of C07/C14. Any other panic is a crash of the code under test.
+// processBatch error: the runner process dies (its parent restarts it and
+// every request in flight is lost). After an injected backend failure that is
+// the designed reaction and merely ends this server; without one it is a crash
+// of the code under test and is reported (class panic, against C07: every
+// such error comes from cache / slot management). Any other panic goes to the
+// kernel's panic capture.
 func (srv *simServer) start() {
 	ctx, cancel := context.WithCancel(context.Background())
 	srv.cancel = cancel
@@ -268,6 +272,9 @@ func (srv *simServer) start() {
 				if err, ok := r.(error); ok && srv.isBatchError(err) {
 					srv.fatal = err.Error()
 					verifsim.Probe("runner_fatal_batch_error")
+					if cl := fatalClass(srv.fatal); cl != "injected-backend-failure" {
+						srv.w.violate("C07", "panic", "panic:run-loop:"+cl, "%s: the run loop panicked with a processBatch error (the runner process dies): %s\n  slots: %s", srv.name, srv.fatal, srv.slotSummary())
+					}
 					return
 				}
 				panic(r)
@@ -275,6 +282,15 @@ func (srv *simServer) start() {
 		}()
 		srv.s.run(ctx)
 	})
+}
+
+func (srv *simServer) slotSummary() string {
+	var sb strings.Builder
+	for i := range srv.s.cache.slots {
+		sl := &srv.s.cache.slots[i]
+		fmt.Fprintf(&sb, "slot %d: %d inputs inUse=%v; ", i, len(sl.Inputs), sl.InUse)
+	}
+	return sb.String()
 }
 
 // isBatchError recognises the errors processBatch returns on purpose.
@@ -366,7 +382,8 @@ type memWriter struct {
 
 func (w *memWriter) Header() http.Header { return w.hdr }
 func (w *memWriter) WriteHeader(c int) {
-	if w.code == 0 {
+	// like net/http: the status line goes out with the first Write; later calls are ignored
+	if w.code == 0 && w.writes == 0 {
 		w.code = c
 	}
 }
@@ -406,15 +423,33 @@ type runWorld struct {
 	nDone   int // clients finished
 	desc    []string
 	nextReq int
+	other   map[string]int // violations of the property that is not being checked in this run
 }
 
 func (w *runWorld) note(f string, a ...any) {
 	if len(w.desc) < 70 {
 		w.desc = append(w.desc, fmt.Sprintf(f, a...))
 	}
+	if verifDebug {
+		fmt.Fprintf(os.Stderr, "  | "+f+"\n", a...)
+	}
 }
 
+// debugf prints the harness-level story of a run (VERIF_DEBUG=1, replay by hand).
+func debugf(f string, a ...any) {
+	if verifDebug {
+		fmt.Fprintf(os.Stderr, "  | "+f+"\n", a...)
+	}
+}
+
+var verifDebug = os.Getenv("VERIF_DEBUG") != ""
+
 func (w *runWorld) violate(prop, class, sig, f string, a ...any) {
+	if prop != w.prop {
+		// the other property's oracle: its check reports it; do not cut this run short
+		w.other[prop+":"+sig]++
+		return
+	}
 	verifsim.Violate(prop, class, sig, fmt.Sprintf(f, a...)+"\n  config: "+w.cfg.String()+"\n  "+w.v.describe())
 }
 
@@ -634,6 +669,18 @@ func (w *runWorld) client(ci int) {
 
 // ---- the run -------------------------------------------------------------------------------
 
+func fatalClass(msg string) string {
+	switch {
+	case strings.Contains(msg, "could not find a kv cache slot"):
+		return "kv-cache-full"
+	case strings.Contains(msg, "unable to shift context"):
+		return "keep-exceeds-context"
+	case strings.Contains(msg, "sim backend"):
+		return "injected-backend-failure"
+	}
+	return "other"
+}
+
 func verifQuietLogs() {
 	slog.SetDefault(slog.New(slog.NewTextHandler(io.Discard, &slog.HandlerOptions{Level: slog.LevelError + 8})))
 }
@@ -641,7 +688,7 @@ func verifQuietLogs() {
 func runRunner(t *testing.T, tape *verifsim.Tape, prop, tier string, keepLog bool) verifsim.Result {
 	return verifsim.Run(t, tape, keepLog, func(sim *verifsim.Sim, res *verifsim.Result) {
 		cfg := drawRunCfg(prop, tier)
-		w := &runWorld{t: t, prop: prop, tier: tier, cfg: cfg}
+		w := &runWorld{t: t, prop: prop, tier: tier, cfg: cfg, other: map[string]int{}}
 		w.v = drawVocab(tier)
 		w.drawBases()
 		w.note("config: %s", cfg)
@@ -673,6 +720,7 @@ func runRunner(t *testing.T, tape *verifsim.Tape, prop, tier string, keepLog boo
 			// nothing can run any more although clients are waiting
 			if srv.fatal != "" {
 				res.Info["runner_fatal"]++
+				res.Info["runner_fatal:"+[...]string{"causal", "swa", "wrapper"}[cfg.cacheKind]+":"+fatalClass(srv.fatal)]++
 				w.note("run loop ended: %s", srv.fatal)
 			} else {
 				res.Info["stuck"]++
@@ -680,8 +728,19 @@ func runRunner(t *testing.T, tape *verifsim.Tape, prop, tier string, keepLog boo
 				w.note("STUCK: %s", detail)
 			}
 		}
+		if stop == verifsim.CondTrue && srv.fatal == "" {
+			// sequences of cancelled requests live on until the run loop notices: let them
+			// leave, so that the slot bookkeeping of every request is checked at its end
+			stop = sim.RunUntil(func() bool { return !srv.s.mu.Held() && srv.s.allNil() }, time.Minute, 20000)
+			if stop != verifsim.CondTrue {
+				res.Info["drain_"+stop.String()]++
+			}
+		}
 		srv.onStep()
 		sim.OnStep = nil
+		// the main server is finished: its run loop must not run during the reference phase
+		srv.stop(sim)
+		sim.AbortCondWaiters()
 
 		if stop == verifsim.CondTrue && prop == "C07" && srv.fatal == "" {
 			w.differential(sim, res)
@@ -701,6 +760,9 @@ func runRunner(t *testing.T, tape *verifsim.Tape, prop, tier string, keepLog boo
 			res.Info["tokens_generated"] += len(r.gen)
 		}
 		res.Info["forwards"] += srv.forwards
+		for k, n := range w.other {
+			res.Info["other_property_violation:"+k] += n
+		}
 		for h := range states {
 			res.States = append(res.States, h)
 		}
